@@ -25,7 +25,7 @@ func main() {
 		// the virtual-host glue of the real NewHopServer alone (part of C10's check)
 		"C10sni": {Gen: func(g *GenCtx) {
 			for i := 0; i < 3; i++ {
-				for _, k := range []string{"match", "nomatch", "type7f-nomatch", "type7f-match", "empty"} {
+				for _, k := range sniKinds {
 					g.Op("sni %s", k)
 				}
 			}
